@@ -294,6 +294,11 @@ def run(ids=None, skip_tests=False) -> None:
                 results[mid] = {"property": prop, "applies": False}
                 continue
             entry = {"property": prop, "applies": True}
+            if skip_tests:
+                # the suite verdict depends on the mutant only (not on /verif): keep it from the previous run
+                for k_ in ("tests_pass", "tests_tail", "tests_failed", "tests_rerun_serial"):
+                    if k_ in (results.get(mid) or {}):
+                        entry[k_] = results[mid][k_]
             if not skip_tests:
                 t = subprocess.run(["/venv/bin/python", "-m", "pytest", "-q", "-p", "no:cacheprovider", "-n", "8", "--timeout=900", "-rf",
                                     "--deselect", "tests/test_export_ontology.py::test_export_framework_ontology_script"],
